@@ -58,10 +58,17 @@ def gen_tree(rng):
         cf = os.path.join(d, "conftest.py") if d else "conftest.py"
         m1 = os.path.join(d, "helper_mod.py") if d else "helper_mod.py"
         m2 = os.path.join(d, "helper_deep.py") if d else "helper_deep.py"
-        files[cf] = body(cf, "from .helper_mod import *")
+        extra = [f"helper_x{j}" for j in range(rng.randint(0, 4))]
+        bad = rng.random() < 0.5
+        names = ["helper_mod"] + extra + (["helper_badbytes"] if bad else [])
+        rng.shuffle(names)
+        files[cf] = body(cf, "\n".join(f"from .{n_} import *" for n_ in names))
         files[m1] = body(m1, "from .helper_deep import *")
         files[m2] = body(m2)
-        helper_mods.append((cf, m1, m2))
+        for n_ in extra:
+            r_ = os.path.join(d, n_ + ".py") if d else n_ + ".py"
+            files[r_] = body(r_)
+        helper_mods.append((cf, m1, m2, os.path.join(d, "helper_badbytes.py") if bad else None))
     # excludes (forms whose meaning is unambiguous for root-relative paths)
     excludes = []
     tops = sorted({r.split("/")[0] for r in files if "/" in r})
@@ -168,9 +175,10 @@ def materialise(base, root_rel, files, broken_kinds):
     return os.path.realpath(root)
 
 
-def scan_snapshot(vh, root, only=None):
+def scan_snapshot(vh, root, only=None, given=None):
+    """root: canonical path (index keys are canonical); given: the spelling handed to the scanner (default: canonical)"""
     db = vh.new_db()
-    r = vh.call(op="scan_config", db=db, root=root, timeout=120)
+    r = vh.call(op="scan_config", db=db, root=given or root, timeout=120)
     if "panic" in r:
         vh.call(op="drop_db", db=db)
         return None, r
@@ -204,12 +212,28 @@ def run(ctx):
                     nm = {"non_utf8": "test_bad_bytes.py", "dir": "test_is_dir.py", "dangling": "test_dangling.py",
                           "loop": "loop_link", "syntax": "test_syntax_error.py"}[kk]
                     broken[os.path.join(d, nm) if d else nm] = kk
+            for h_ in helpers:
+                if h_[3]:
+                    broken[h_[3]] = "non_utf8"        # one of several modules a conftest imports is not UTF-8
             exp = expected_indexed(files, excludes, broken)
             locs = ["plain/ws"] + ctx.rng.sample(ROOTS[1:], 2 if quick else 5)
             base_snap = None
             for li, loc in enumerate(locs):
                 root = materialise(os.path.join(base, f"L{li}"), loc, files, broken)
-                res, err = scan_snapshot(vh, root, exp)
+                given = None
+                spell = ctx.rng.choice(["canonical", "canonical", "symlink", "dotdot"]) if li > 0 else "canonical"
+                if spell == "symlink":
+                    # the editor's root is a link that lives under a directory with an ignored name
+                    ld = os.path.join(base, f"L{li}", "links", ctx.rng.choice(["build", "venv", "dist", "plainlinks"]))
+                    os.makedirs(ld, exist_ok=True)
+                    given = os.path.join(ld, "ws_link")
+                    os.symlink(root, given)
+                elif spell == "dotdot":
+                    side = os.path.join(os.path.dirname(root), ctx.rng.choice(["target", "env", "side"]))
+                    os.makedirs(side, exist_ok=True)
+                    given = os.path.join(side, "..", os.path.basename(root))
+                res, err = scan_snapshot(vh, root, exp, given=given)
+                loc = loc + ":" + spell
                 if err:
                     ctx.violation({"kind": "scan-panicked", "location": loc}, {"err": err}, files=files)
                     continue
